@@ -16,8 +16,8 @@ func propC11() *Property {
 		Explanation: "Structural clauses of the feed property only. Decided: (R1) the feed simply ends — no pointer that may be nil is ever converted into a pub.Container or pub.Tangible interface anywhere in the module (a typed nil passes every `!= nil` test of the UI and crashes on the next Harvest); (R2) splicer.NewSplicer's type switch covers every dynamic type pub.FetchUserInput can return, so its panic is unreachable; (R3) the parallel replenish/NewSplicer fan-out is race-free (decided by C08.R5); (R4) Splicer.Harvest never writes through its receiver — it works on a clone — which is necessary for the same feed position to give the same answer twice. NOT decided: that the output is the newest-first merge, exactly-once delivery, tie-breaking and idempotence as values (they quantify over timestamps and slices; no static argument in reach decides them).",
 		Assumptions: []string{"VTA call graph / MakeInterface sites over-approximate the dynamic types of interface values"},
 		Rules: []Rule{
-			{ID: "C11.R1", Title: "no typed-nil pointer is converted to Container / Tangible", Floor: 20, Run: c11R1},
-			{ID: "C11.R2", Title: "NewSplicer's type switch covers every type FetchUserInput returns", Floor: 4, Run: c11R2},
+			{ID: "C11.R1", Title: "no typed-nil pointer is converted to Container / Tangible", Floor: 30, Run: c11R1},
+			{ID: "C11.R2", Title: "NewSplicer's type switch covers every type FetchUserInput returns", Floor: 3, Run: c11R2},
 			{ID: "C11.R4", Title: "Harvest works on a clone: the receiver is never written", Floor: 1, Run: c11R4},
 		},
 	}
